@@ -15,7 +15,8 @@ RULE = (
     "of interest of the topology.  Oracles: (1) totals from setup(mode='fwd') vs setup(mode='rev'); (2) both vs real-valued "
     "5-point numerical differentiation of run_model (coupled solver converged to 1e-12) along one direction per chosen "
     "variable plus a joint direction; (3) totals with DirectSolver vs LinearBlockGS vs ScipyKrylov(+LinearRunOnce) attached to "
-    "the coupled group.  non-trivial = >= 1 variable upstream of the implicit/coupled solve and >= 1 function downstream; "
+    "the coupled group; (4) LinearBlockGS in fwd and in rev mode (same spectral radius): if only one converges, the other is "
+    "re-run without the convergence error and its totals must agree with the converged mode.  non-trivial = >= 1 variable upstream of the implicit/coupled solve and >= 1 function downstream; "
     "distinct = descriptor digest."
 )
 ASSUMPTIONS = [
